@@ -31,6 +31,10 @@ func register(c *Check) {
 	if _, dup := registry[c.ID]; dup {
 		panic("duplicate check " + c.ID)
 	}
+	if len(reentrySources[c.ID]) > 0 {
+		c.Explanation += " " + reentryExplanation
+		c.Technique += "; must-lockset with helper entry locksets against a may-acquire-first summary (no re-entrant mutex acquisition, also through String/Error methods handed to fmt or a logger)"
+	}
 	if from := depSources[c.ID]; len(from) > 0 {
 		c.Pkgs = withDeps(c.Pkgs)
 		c.Explanation += " " + depExplanation
@@ -97,6 +101,9 @@ func RunCheck(chk *Check, p *ir.Prog, cfg string) (res *report.Result) {
 	chk.Run(ctx)
 	if from := depSources[chk.ID]; len(from) > 0 {
 		ctx.depContracts(chk.ID, from...)
+	}
+	for _, rel := range reentrySources[chk.ID] {
+		ctx.noReentrantLock(chk.ID+".K1", p.FuncsOf(rel))
 	}
 	fs := map[string]bool{}
 	for _, f := range res.Functions {
